@@ -25,8 +25,11 @@ func newC11Model() *c11Model {
 }
 
 var (
-	c11VSpec = []float64{1, 1, 2}
-	c11DSpec = []time.Duration{5, 1}
+	// one bucket set per scope of c11Scopes (root and "rootagain" are the same scope). Within each kind the sets
+	// have equal length and equal identity in the root's bucket cache (the identity is a sum of bit patterns),
+	// some are permutations of each other, some have duplicated bounds.
+	c11VSpecs = [][]float64{{1, 1, 2}, {0.5, 2, 2}, {1, 2, 1}, {1, 1, 2}, {2, 0.5, 2}}
+	c11DSpecs = [][]time.Duration{{5, 1}, {2, 4}, {3, 3}, {5, 1}, {4, 2}}
 )
 
 // snapshotSig renders a snapshot canonically (also used to detect later changes of an old snapshot).
@@ -166,7 +169,6 @@ func c11Exec(alphabet []string) func(hist []int) (string, string, string, int) {
 			subClosed := false
 			var prev tally.Snapshot
 			var prevSig string
-			vu, du := refValueUppers(c11VSpec), refDurationUppers(c11DSpec)
 			snapCheck := func(after string) (string, string) {
 				if prev != nil {
 					if s := snapshotSig(prev); s != prevSig {
@@ -201,11 +203,13 @@ func c11Exec(alphabet []string) func(hist []int) (string, string, string, int) {
 					var arg float64
 					fmt.Sscanf(name, "%s %s %g", &lbl, &what, &arg)
 					var sc c11Scope
-					for _, x := range scopes {
+					si := 0
+					for i, x := range scopes {
 						if x.label == lbl {
-							sc = x
+							sc, si = x, i
 						}
 					}
+					vu, du := refValueUppers(c11VSpecs[si]), refDurationUppers(c11DSpecs[si])
 					s, ok := live[lbl]
 					if !ok {
 						s = sc.get(root)
@@ -262,7 +266,7 @@ func c11Exec(alphabet []string) func(hist []int) (string, string, string, int) {
 						s.Timer(metric).Record(time.Duration(arg))
 						m.timers[k] = append(m.timers[k], time.Duration(arg))
 					case "hv":
-						s.Histogram(metric, tally.ValueBuckets(append([]float64{}, c11VSpec...))).RecordValue(arg)
+						s.Histogram(metric, tally.ValueBuckets(append([]float64{}, c11VSpecs[si]...))).RecordValue(arg)
 						if m.hvals[k] == nil {
 							m.hvals[k] = map[float64]int64{}
 							for _, u := range vu {
@@ -271,7 +275,7 @@ func c11Exec(alphabet []string) func(hist []int) (string, string, string, int) {
 						}
 						m.hvals[k][vu[refValueBucket(vu, arg)]]++
 					case "hd":
-						s.Histogram(metric, tally.DurationBuckets(append([]time.Duration{}, c11DSpec...))).RecordDuration(time.Duration(arg))
+						s.Histogram(metric, tally.DurationBuckets(append([]time.Duration{}, c11DSpecs[si]...))).RecordDuration(time.Duration(arg))
 						if m.hdurs[k] == nil {
 							m.hdurs[k] = map[time.Duration]int64{}
 							for _, u := range du {
